@@ -753,10 +753,10 @@ class BaseDiscretizer(BaseEstimator, TransformerMixin):
         assert mode in ["group", "replace"], " - [Discretizer] Choose mode in ['group', 'replace']"
 
         # checking for nans
-        if isnan(discarded_value):
+        if isna(discarded_value):
             discarded_value = self.str_nan
             self.features_dropna[feature] = True
-        assert not isnan(
+        assert not isna(
             kept_value
         ), " - [Discretizer] missing values can only be grouped with an existing modality"
 
